@@ -53,6 +53,15 @@ Proof. intros. eapply reachS_mach_hold_past; eauto. Qed.
 Print Assumptions C03_machine_holds_one_partial.
 
 (* ... and without the side condition for instances whose machine post-buffers are unordered (FLEX, the default) *)
+Theorem C03_machine_holds_one_every_instance :
+  forall (sigma : oracle) (i : inst) (fuel : nat) (x0 : state) (joker0 : Z) (ta : bool) (r : result) (m : mw),
+    inst_nonneg_b i = true ->
+    clock_b x0 = true -> wfs_b i x0 = true -> fresh2_b i x0 = true -> nodep_b x0 = true ->
+    reach sigma i fuel x0 joker0 ta r m -> mach_hold_b (r_x r) = true.
+Proof. intros sigma i fuel x0 joker0 ta r m Hnn C W Fr D H. destruct (run_reachable sigma i Hnn _ _ _ _ _ _ C W Fr D H) as [_ [A _]]. exact A. Qed.
+Print Assumptions C03_machine_holds_one_every_instance.
+
+(* the same for the instance class of the earlier rounds (corollary) *)
 Theorem C03_machine_holds_one_flex :
   forall (sigma : oracle) (i : inst) (fuel : nat) (x0 : state) (joker0 : Z) (ta : bool) (r : result) (m : mw),
     inst_nonneg_b i = true -> flex_post_b i = true ->
@@ -64,12 +73,21 @@ Print Assumptions C03_machine_holds_one_flex.
 (* "an idle AGV holds and claims nothing; an AGV holds at most one job, and only its claim" (agv_hold_b) in every state of
    every run, for instances whose machine post-buffers are unordered or of capacity one (SMP/Hold.v: the job an AGV takes
    is its claim - derived, not assumed - nothing else puts a job on an AGV, and the claim is dropped with the job) *)
+Theorem C03_agv_holds_only_its_claim_every_instance :
+  forall (sigma : oracle) (i : inst) (fuel : nat) (x0 : state) (joker0 : Z) (ta : bool) (r : result) (m : mw),
+    inst_nonneg_b i = true ->
+    clock_b x0 = true -> wfs_b i x0 = true -> fresh2_b i x0 = true -> nodep_b x0 = true ->
+    reach sigma i fuel x0 joker0 ta r m -> agv_hold_b (r_x r) = true.
+Proof. intros sigma i fuel x0 joker0 ta r m Hnn. apply run_agv_hold; auto. Qed.
+Print Assumptions C03_agv_holds_only_its_claim_every_instance.
+
+(* the same for the instance class of the earlier rounds (corollary) *)
 Theorem C03_agv_holds_only_its_claim_flex :
   forall (sigma : oracle) (i : inst) (fuel : nat) (x0 : state) (joker0 : Z) (ta : bool) (r : result) (m : mw),
     inst_nonneg_b i = true -> flex_post_b i = true ->
     clock_b x0 = true -> wfs_b i x0 = true -> fresh2_b i x0 = true -> nodep_b x0 = true ->
     reach sigma i fuel x0 joker0 ta r m -> agv_hold_b (r_x r) = true.
-Proof. intros sigma i fuel x0 joker0 ta r m Hnn Hf. apply flex_agv_hold; auto. Qed.
+Proof. intros. eapply C03_agv_holds_only_its_claim_every_instance; eauto. Qed.
 Print Assumptions C03_agv_holds_only_its_claim_flex.
 
 (* "an AGV holds what the state says it holds": exactly one job while in TRANSIT, none in any other phase
